@@ -79,12 +79,12 @@ def run(chk, repo, tier):
     cfg = CFG(nv.node)
     stores = [n for n in cfg.nodes.values() if isinstance(n.ast, ast.Assign) and isinstance(n.ast.targets[0], ast.Subscript)
               and 'nearest' in unparse(n.ast.targets[0].value)]
-    guards = [n for n in cfg.nodes.values() if n.kind == 'test' and isinstance(n.ast, ast.Compare)
-              and isinstance(n.ast.ops[0], ast.IsNot)]
+    from sa import guards as G
+    other_object = G.compare_atom(ast.IsNot, ast.Is)
     if not stores:
         raise AnalysisError('nearest_valid_parameters: overwrite site not found')
     for s_ in stores:
-        ok = any(cfg.edge_dominates(g.id, 'true', s_.id) for g in guards)
+        ok = bool(G.guarded(cfg, s_.id, other_object))
         chk.instance(V1, f'nearest_valid_parameters: `{s_.text()}` only when the repaired matrix is another object: {ok}')
         if not ok:
             chk.violation(V1, rv.module.rel, nv.qualname, s_.text(),
@@ -105,12 +105,13 @@ def run(chk, repo, tier):
         raise AnalysisError('Model._canonicalize_parameter_estimates not found')
     cfg = CFG(cp.node)
     repl = [n for n in cfg.nodes.values() if isinstance(n.ast, ast.Assign) and 'set_initial_estimates' in unparse(n.ast.value)]
-    gts = [n for n in cfg.nodes.values() if n.kind == 'test' and isinstance(n.ast, ast.UnaryOp) and isinstance(n.ast.op, ast.Not)
-           and 'validate_parameters' in unparse(n.ast.operand)]
+    # "validation fails" = the false edge of a validate_parameters(...) call, however the test is written
+    def invalid(e):
+        return False if isinstance(e, ast.Call) and unparse(e.func).endswith('validate_parameters') else None
     if not repl:
         raise AnalysisError('_canonicalize_parameter_estimates: replacement site not found')
     for r in repl:
-        ok = any(cfg.edge_dominates(g.id, 'true', r.id) for g in gts)
+        ok = bool(G.guarded(cfg, r.id, invalid))
         chk.instance(V1, f'_canonicalize_parameter_estimates: `{r.text()}` only when validation fails: {ok}')
         if not ok:
             chk.violation(V1, mc.module.rel, cp.qualname, r.text(), 'estimates are replaced although they validate',
